@@ -98,6 +98,15 @@ func pendingFreeCycle(li *loopInfo, ph *ssa.Phi, useBlock map[*ssa.BasicBlock]bo
 		}
 		return -1
 	}
+	initNil := true
+	for i, e := range ph.Edges {
+		if li.blocks[li.header.Preds[i]] {
+			continue
+		}
+		if c, ok := e.(*ssa.Const); !ok || !c.IsNil() {
+			initNil = false
+		}
+	}
 	seen := map[*ssa.BasicBlock]bool{}
 	var path []*ssa.BasicBlock
 	var dfs func(b *ssa.BasicBlock) bool
@@ -105,8 +114,12 @@ func pendingFreeCycle(li *loopInfo, ph *ssa.Phi, useBlock map[*ssa.BasicBlock]bo
 		seen[b] = true
 		path = append(path, b)
 		ne := nilEdge(b)
+		ft := -1
+		if initNil {
+			ft = firstTripSucc(li, b) // during the first trip the pending value is still its initial nil
+		}
 		for i, s := range b.Succs {
-			if !li.blocks[s] || i == ne {
+			if !li.blocks[s] || i == ne || i == ft {
 				continue
 			}
 			if s == li.header {
@@ -126,4 +139,73 @@ func pendingFreeCycle(li *loopInfo, ph *ssa.Phi, useBlock map[*ssa.BasicBlock]bo
 		return path
 	}
 	return nil
+}
+
+// firstTripSucc: the successor of b that can only be taken during the first trip of loop li: b ends
+// in a comparison of the loop's own counter (a header phi c0, +1 per trip, or that phi plus a
+// constant) with a constant that only the counter's first value satisfies.  -1 if there is none.
+func firstTripSucc(li *loopInfo, b *ssa.BasicBlock) int {
+	iff, ok := b.Instrs[len(b.Instrs)-1].(*ssa.If)
+	if !ok {
+		return -1
+	}
+	bo, ok := iff.Cond.(*ssa.BinOp)
+	if !ok {
+		return -1
+	}
+	k, ok := constInt(bo.Y)
+	if !ok {
+		return -1
+	}
+	base, off := linear(bo.X)
+	ph, ok := base.(*ssa.Phi)
+	if !ok || ph.Block() != li.header {
+		return -1
+	}
+	first, okFirst := int64(0), false
+	for i, e := range ph.Edges {
+		if li.blocks[li.header.Preds[i]] {
+			b2, k2 := linear(e)
+			if b2 != ssa.Value(ph) || k2 < 1 {
+				return -1
+			}
+			continue
+		}
+		c, ok := constInt(e)
+		if !ok || (okFirst && c != first) {
+			return -1
+		}
+		first, okFirst = c, true
+	}
+	if !okFirst {
+		return -1
+	}
+	first += off // value of bo.X during the first trip; it only grows afterwards
+	switch bo.Op {
+	case token.GTR: // v > k false ⇒ v ≤ k
+		if k <= first {
+			return 1
+		}
+	case token.GEQ: // v >= k false ⇒ v ≤ k-1
+		if k-1 <= first {
+			return 1
+		}
+	case token.LSS: // v < k true ⇒ v ≤ k-1
+		if k-1 <= first {
+			return 0
+		}
+	case token.LEQ:
+		if k <= first {
+			return 0
+		}
+	case token.EQL:
+		if k <= first {
+			return 0
+		}
+	case token.NEQ:
+		if k <= first {
+			return 1
+		}
+	}
+	return -1
 }
